@@ -129,6 +129,9 @@ def extract_from(F, anchor):
         if p.end != "return":
             continue
         t = dtree.last_assign(anchor, p, 0, pr)
+        if t and t[0] == "agg" and len(t[2]) == 1 and t[2][0][0] == "phi":
+            # `let v = if let Some(s) = .. { A[..] } else { B[..] }; MadeHand(v)`: the value chosen on this path
+            t = dtree.path_term(anchor, p, 0)
         if not (t and t[0] == "agg" and t[1] == f"adt:{MADE_HAND}::MadeHand" and len(t[2]) == 1):
             raise U("C01.extract", f"result is not MadeHand(table[hash]): {P.show(t) if t else t}", anchor)
         x = t[2][0]
